@@ -372,3 +372,86 @@ Fixpoint dknown (fuel : nat) (code : list dstm) : bool :=
   | O => false
   | S f => forallb (fun s => match s with DIfList b => dknown f b | DSUnknown => false | _ => true end) code
   end.
+
+(* ================= the payload builders: request_payload / response_payload / error_payload ================= *)
+Record binput := { b_meth : text; b_args : json; b_rid : json; b_result : json; b_ecode : json; b_emsg : text }.
+
+Fixpoint bval_eval (i : binput) (v : bval) : option json :=
+  match v with
+  | BStrLit s => Some (JStr s)
+  | BNoneLit => Some JNull
+  | BMethod => Some (JStr (b_meth i))
+  | BArgs => Some (b_args i)
+  | BId => Some (b_rid i)
+  | BResult => Some (b_result i)
+  | BErrCode => Some (b_ecode i)
+  | BErrMessage => Some (JStr (b_emsg i))
+  | BDictLit items =>
+      option_map JObj
+        ((fix go (l : list (list N * bval)) : option (list (text * json)) :=
+            match l with
+            | [] => Some []
+            | (k, x) :: r => match bval_eval i x, go r with
+                             | Some a, Some b => Some ((k, a) :: b)      (* a dict display with distinct keys (checked by bval_known) *)
+                             | _, _ => None
+                             end
+            end) items)
+  | BVUnknown => None
+  end.
+
+Definition bcnd_holds (i : binput) (c : bcnd) : option bool :=
+  match c with
+  | BIdNotNone => Some (negb (is_null (b_rid i)))
+  | BArgsIsDict => Some (is_dict (b_args i))
+  | BArgsTruthyOrEmptyDict =>            (* request.args or request.args == {} ; args is a list or a dict *)
+      match b_args i with
+      | JArr [] => Some false
+      | JArr _ | JObj _ => Some true
+      | _ => None
+      end
+  | BCndUnknown => None
+  end.
+
+(* Some None: ProtocolError (invalid arguments); Some (Some j): the payload; None: stuck *)
+Fixpoint bsexec (i : binput) (payload : option (list (text * json))) (code : list bst) : option (option json) :=
+  match code with
+  | [] => None
+  | s :: rest =>
+      match s with
+      | BAssignPayload v => match bval_eval i v with Some (JObj l) => bsexec i (Some l) rest | _ => None end
+      | BIfSet c k v =>
+          match bcnd_holds i c, payload with
+          | Some true, Some l => match bval_eval i v with Some x => bsexec i (Some (obj_set k x l)) rest | None => None end
+          | Some false, _ => bsexec i payload rest
+          | _, _ => None
+          end
+      | BIfRaiseInvalidArgs c => match bcnd_holds i c with Some true => Some None | Some false => bsexec i payload rest | None => None end
+      | BReturnPayload => match payload with Some l => Some (Some (JObj l)) | None => None end
+      | BReturnDict v => match bval_eval i v with Some j => Some (Some j) | None => None end
+      | BSUnk => None
+      end
+  end.
+
+Definition code_of_request_payload (pr : proto) := match pr with V1 => v1_request_payload_code | V2 => v2_request_payload_code | Loose => loose_request_payload_code end.
+Definition code_of_response_payload (pr : proto) := match pr with V1 => v1_response_payload_code | V2 => v2_response_payload_code | Loose => loose_response_payload_code end.
+Definition code_of_error_payload (pr : proto) := match pr with V1 => v1_error_payload_code | V2 => v2_error_payload_code | Loose => loose_error_payload_code end.
+
+Fixpoint bval_known (v : bval) : bool :=
+  match v with
+  | BVUnknown => false
+  | BDictLit items =>
+      (fix go (l : list (list N * bval)) := match l with [] => true | (_, x) :: r => bval_known x && go r end) items &&
+      (fix nd (l : list (list N * bval)) := match l with
+                                            | [] => true
+                                            | (k, _) :: r => negb (existsb (fun kx => list_eqb N.eqb k (fst kx)) r) && nd r
+                                            end) items
+  | _ => true
+  end.
+Definition bst_known (code : list bst) : bool :=
+  forallb (fun s => match s with
+                    | BAssignPayload v | BReturnDict v => bval_known v
+                    | BIfSet c _ v => match c with BCndUnknown => false | _ => bval_known v end
+                    | BIfRaiseInvalidArgs c => match c with BCndUnknown => false | _ => true end
+                    | BReturnPayload => true
+                    | BSUnk => false
+                    end) code.
